@@ -3,3 +3,5 @@ import TransportVerif.Props.C04
 import TransportVerif.Props.C05
 import TransportVerif.Props.C16
 import TransportVerif.Props.C20
+import TransportVerif.Props.C06
+import TransportVerif.Props.C07
